@@ -5,6 +5,7 @@ From Coq Require Import Reals Lra List.
 From Coquelicot Require Import Coquelicot.
 From P Require Import C03_gen C03_proofs_simple C03_proofs_knowles.
 From P Require Import C15_bell C15_gen C15_model C15_proofs C15_proofs_wiring.
+Import ListNotations.
 Open Scope R_scope.
 
 Definition Dom (x : R) : Prop := -1 < x < 1.
@@ -79,7 +80,7 @@ Lemma bvp2_MultiExp_lemma rmin R_ (a0 a1 a2 f : R -> R) (xa xb : R) (S0 S1 : R -
   let g1 := MultiExp_deriv rmin R_ in let g2 := MultiExp_deriv2 rmin R_ in let g3 := MultiExp_deriv3 rmin R_ in
   solves_2 Dom g (bvp_rhsT_2 a0 a1 a2 ginv g1 g2 g3 f) S0 S1 ->
   let y := out_T_2 g g1 g2 g3 S0 S1 in
-  let Ya := [S0 (g xa); S1 (g xa)]%list in let Yb := [S0 (g xb); S1 (g xb)]%list in
+  let Ya := [S0 (g xa); S1 (g xa)] in let Yb := [S0 (g xb); S1 (g xb)] in
   (forall x, Dom x -> exists y2 : R,
      is_derive (fun t => fst (y t)) x (snd (y x)) /\ is_derive (fun t => snd (y t)) x y2 /\
      a0 x * fst (y x) + a1 x * snd (y x) + a2 x * y2 = f x) /\
